@@ -126,6 +126,8 @@ def run_plan(plan):
             do_fit(S, op, i, base_seed, check)
         elif kind == "path":
             do_path(S, op, i, base_seed, check)
+        elif kind == "solver_path":
+            do_solver_path(S, op, i, base_seed)
         elif kind == "compare":
             do_compare(S, op, i)
         else:
@@ -178,6 +180,7 @@ def do_fit(S, op, i, base_seed, check):
         if isinstance(v, np.ndarray):
             held["solver_" + attr] = v
     before = {k: _hash_obj(v) for k, v in held.items()}
+    solver_before = _solver_params(model)
     seams = Seams(op.get("faults"))
     exc = None
     warned_nonconv = False
@@ -221,6 +224,7 @@ def do_fit(S, op, i, base_seed, check):
     for k in before:
         if before[k] != after[k]:
             S.add(["C18"], "input_modified", (cls, "input_modified", k), dict(which=k), dict(feat0, which=k), i)
+    _judge_solver_params(S, model, solver_before, cls, feat0, i)
     if exc is not None:
         if is_refusal(exc) or exc["type"] in ("ValueError", "TypeError", "AttributeError") and \
                 "/sklearn/" in (exc.get("last") or ""):
@@ -407,6 +411,87 @@ def op_wants_optimum(S, i):
     return S.plan["ops"][i].get("optimum", True)
 
 
+def _solver_params(model):
+    """Scalar hyper-parameters of a user-held solver object (constructor arguments)."""
+    solver = getattr(model, "solver", None)
+    if solver is None or not hasattr(solver, "__dict__"):
+        return None
+    out = {}
+    for k, v in vars(solver).items():
+        if isinstance(v, (bool, np.bool_, int, float, np.integer, np.floating)):
+            out[k] = ("num", repr(float(v)))        # compared by value, not by type
+        elif isinstance(v, (str, type(None))):
+            out[k] = ("obj", repr(v))
+    return out
+
+
+def _judge_solver_params(S, model, before, cls, feat0, i):
+    """A fit / path may not rewrite the hyper-parameters of the solver object the user holds:
+    a later fit with the same object would then depend on what was fitted before."""
+    if before is None:
+        return
+    after = _solver_params(model)
+    changed = sorted(k for k in set(before) | set(after or {})
+                     if (after or {}).get(k, (None, None))[1] != before.get(k, (None, None))[1])
+    if changed:
+        S.add(["C18"], "solver_hyperparameters_modified",
+              (cls, "solver_hyperparameters_modified", type(model.solver).__name__, changed[0]),
+              dict(changed={k: [before.get(k, (None, None))[1], (after or {}).get(k, (None, None))[1]]
+                            for k in changed}),
+              dict(feat0, which=changed[0], solver=type(model.solver).__name__), i)
+
+
+def do_solver_path(S, op, i, base_seed):
+    """The user-held solver object of a GeneralizedLinearEstimator sweeps a regularisation
+    path (solver.path) on some dataset, with freshly compiled clones of the estimator's datafit
+    and penalty: shared state between this and a later fit can only live in the solver object
+    or in process-global caches."""
+    mid = op["id"]
+    model = S.models.get(mid)
+    if model is None or not hasattr(getattr(model, "solver", None), "path"):
+        return
+    from skglm.utils.jit_compilation import compiled_clone
+    cls = S.cls[mid]
+    ds = S.plan["datasets"][op["data"]]
+    container = op.get("container", "F")
+    Xd = np.array(ds["X"], dtype=float)
+    Xc = B.make_container(Xd, container)
+    yc = make_target(ds["y"], ds["kind"], None, False)
+    env.seed_rng(base_seed * 7919 + i)
+    feat0 = dict(cls=cls, container=container, kind=ds["kind"], path=True, solver_path=True,
+                 engine=S.plan.get("engine"))
+    before = _solver_params(model)
+    hx = (_hash_obj(Xc), _hash_obj(yc))
+    seams = Seams(None)
+    try:
+        datafit = compiled_clone(model.datafit)
+        penalty = compiled_clone(model.penalty)
+        if sp.issparse(Xc):
+            datafit.initialize_sparse(Xc.data, Xc.indptr, Xc.indices, yc)
+        else:
+            datafit.initialize(Xc, yc)
+        with warnings.catch_warnings(record=True):
+            warnings.simplefilter("always")
+            with seams.active():
+                out = model.solver.path(Xc, yc, datafit, penalty, alphas=np.array(op["alphas"], dtype=float))
+        S.log.update(np.array(out[1], dtype=float).tobytes())
+        S.counts["solved"] += 1
+    except Exception as e:
+        exc = classify_exception(e)
+        if exc.get("harness"):
+            raise
+        S.counts["refused" if is_refusal(exc) else "crashed"] += 1
+        S.log.update(repr(("solver_path", exc["type"])).encode())
+    S.probe("solver_object_reused_after_path")
+    S.logical["solves"] += len(op["alphas"])
+    S.logical["outer"] += seams.n_argpartition
+    S.logical["epochs"] += seams.n_epochs
+    S.hist_c = max(S.hist_c, seams.max_abs_c())
+    if hx != (_hash_obj(Xc), _hash_obj(yc)):
+        S.add(["C18"], "input_modified", (cls, "input_modified", "solver_path"), {}, dict(feat0), i)
+    _judge_solver_params(S, model, before, cls, feat0, i)
+
+
 def do_path(S, op, i, base_seed, check):
     mid = op["id"]
     model = S.models.get(mid)
@@ -520,6 +605,26 @@ def do_compare(S, op, i):
         return
     pr = ra["problem"]
     if not pr.pen.convex:
+        # Non-convex penalties: no convexity margin exists, but the dense and the sparse kernels
+        # perform the same coordinate updates in the same order and differ by rounding only, so
+        # two converged replicas sit in the same basin and agree to about the tolerance.  Landing
+        # at *different* stationary points (objectives apart in the 5th digit at a tight
+        # tolerance) means the storage format changed the algorithm.  A flip of one of the
+        # discontinuous decisions (working-set tie, extrapolation acceptance) by rounding alone
+        # needs a tie at the 1e-16 level; single-precision replicas are not compared.
+        if "f32" in (ra.get("container"), rb.get("container")):
+            return
+        (wa, ba), (wb, bb) = ra["wb"], rb["wb"]
+        Pa, Pb = pr.objective(wa, ba), pr.objective(wb, bb)
+        tol = max(ra["tol"], rb["tol"])
+        l1 = float(np.sum(np.abs(wa)) + np.sum(np.abs(wb)))
+        thr = 1e-5 * (1 + abs(Pa)) + 1e3 * tol * (1 + l1)
+        S.probe("nonconvex_storage_pairs")
+        if np.isfinite(Pa) and np.isfinite(Pb) and abs(Pa - Pb) > thr:
+            S.add(["C10"], "storage_stationary_point", (cls, "different_stationary_point_across_storage"),
+                  dict(P_a=float(Pa), P_b=float(Pb), threshold=float(thr), tol=tol,
+                       max_coef_diff=float(np.max(np.abs(np.asarray(wa) - np.asarray(wb)), initial=0.0))),
+                  dict(feat0, datafit=pr.loss.name, penalty=pr.pen.name, fi=pr.fit_intercept), i)
         return
     (wa, ba), (wb, bb) = ra["wb"], rb["wb"]
     Pa, Pb = pr.objective(wa, ba), pr.objective(wb, bb)
